@@ -94,7 +94,7 @@ static int NM(encode)(struct enc *e)
 /* start decompression; with s->bscan > 0 in buffered-image mode with an early output pass on scan bscan */
 static void NM(start)(struct jpeg_decompress_struct *d, struct dec *s)
 {
-  if (s->bscan > 0 && jpeg_has_multiple_scans(d)) {
+  if (s->bscan > 0) {
     d->buffered_image = TRUE;
     jpeg_start_decompress(d);
     while (d->input_scan_number <= s->bscan && !jpeg_input_complete(d)) {
@@ -161,140 +161,221 @@ static int NM(roweq)(struct full *f, unsigned char *r, int y, int cx, int cw, in
 }
 
 /* one partial-decode history through the libjpeg API */
+/* "ok dims ..." header of a result line: what the decompressor selected */
+static char *NM(header)(struct jpeg_decompress_struct *d, char *o)
+{
+  my_master_ptr m = (my_master_ptr)d->master;
+  int sm = 0, ci, k2;
+  o += sprintf(o, "ok dims %d %d M=%d v=%d h=%d ctx=%d mrg=%d ms=%d", d->output_width, d->output_height, d->min_DCT_scaled_size,
+               d->max_v_samp_factor, d->max_h_samp_factor, d->upsample->need_context_rows ? 1 : 0, m->using_merged_upsample ? 1 : 0,
+               (d->inputctl->has_multiple_scans || d->buffered_image) ? 1 : 0);
+  /* is interblock smoothing active?  (jdcoefct.c smoothing_ok(): progressive, DC of every component known,
+     some of the first AC coefficients of some component not known to full precision) */
+  if (d->progressive_mode && d->coef_bits != NULL && d->do_block_smoothing) {
+    int useful = 0;
+    sm = 1;
+    for (ci = 0; ci < d->num_components; ci++) {
+      if (d->comp_info[ci].quant_table == NULL && d->quant_tbl_ptrs[d->comp_info[ci].quant_tbl_no] == NULL) sm = 0;
+      if (d->coef_bits[ci][0] < 0) sm = 0;
+      for (k2 = 1; k2 <= 9; k2++) if (d->coef_bits[ci][k2] != 0) useful = 1;
+    }
+    if (!useful) sm = 0;
+  }
+  o += sprintf(o, " sm=%d", sm);
+  return o;
+}
+
+/* " | crop x w ow= win ..." : the crop result and the IDCT windows the master currently holds */
+static char *NM(cropinfo)(struct jpeg_decompress_struct *d, long x0, long w0, long cw, int W, char *o)
+{
+  int i;
+  o += sprintf(o, " | crop %ld %ld ow=%u win", x0, w0, d->output_width);
+  if (cw != (long)W) {
+    o += sprintf(o, " %u %u", d->master->first_iMCU_col, d->master->last_iMCU_col);
+    for (i = 0; i < d->num_components; i++) o += sprintf(o, " %u %u", d->master->first_MCU_col[i], d->master->last_MCU_col[i]);
+  }
+  return o;
+}
+
+/* run the Read/Skip ops of one output pass and compare every delivered row with the full decode f */
+static char *NM(run_ops)(struct jpeg_decompress_struct *dp, struct full *f, long x0, long w0, int ex0, int ex1, char *ops, char *o)
+{
+#define d (*dp)
+  int H = d.output_height, i;
+  int rb = NM(rowbytes)(&d);
+  int maxn = H + 8;
+  size_t stride = ((size_t)rb + 16 + 15) & ~(size_t)15;   /* 16-byte aligned rows */
+  unsigned char *buf = (unsigned char *)malloc(stride * maxn);
+  SAMP **rows = (SAMP **)malloc(sizeof(SAMP *) * maxn);
+  int *prov = (int *)malloc(sizeof(int) * (maxn + 4)), *provy = (int *)malloc(sizeof(int) * (maxn + 4));
+  int *cls = (int *)malloc(sizeof(int) * (H + 1));
+  int nprov = 0, cmin = 1 << 30, cmax = -1;
+  char *p = ops;
+  /* class of a full-decode row = smallest row with the same pixels inside the compared window */
+  { int y, t; for (y = 0; y < H; y++) { cls[y] = y; for (t = 0; t < y; t++) if (cls[t] == t && NM(roweq)(f, f->pix + (size_t)f->rowb * y + (size_t)x0 * f->pxb, t, (int)x0, (int)w0, ex0, ex1)) { cls[y] = t; break; } } }
+  o += sprintf(o, " | ops");
+  while (*p) {
+    while (*p == ' ') p++;
+    if (*p == 'R') {
+      long n = strtol(p + 1, &p, 10); long got = 0; int first = 1;
+      o += sprintf(o, " r");
+      while (got < n && d.output_scanline < d.output_height) {
+        JDIMENSION y0 = d.output_scanline, k; long want = n - got; int j;
+        if (want > maxn) want = maxn;
+        for (j = 0; j < want; j++) rows[j] = (SAMP *)(buf + stride * j);
+        memset(buf, 0xA5, stride * want);
+        k = JR(&d, (SAMP **)rows, (JDIMENSION)want);
+        o += sprintf(o, "%s%u", first ? "" : "+", k); first = 0;
+        for (j = 0; j < (int)k; j++) {
+          int y = (int)y0 + j, found = -1, t;
+          if (y >= H) found = -1;   /* a row past the bottom: nothing to compare with */
+          else if (NM(roweq)(f, (unsigned char *)rows[j], y, (int)x0, (int)w0, ex0, ex1)) found = cls[y];
+          else for (t = 0; t < H; t++) if (cls[t] == t && NM(roweq)(f, (unsigned char *)rows[j], t, (int)x0, (int)w0, ex0, ex1)) { found = t; break; }
+          if (y < H && found != cls[y]) {   /* which region columns differ from the full decode of row y */
+            int a0 = ex0 ? 1 : 0, b0 = (int)w0 - (ex1 ? 1 : 0), c;
+            for (c = a0; c < b0; c++)
+              if (memcmp((unsigned char *)rows[j] + (size_t)c * f->pxb, f->pix + (size_t)f->rowb * y + (size_t)(x0 + c) * f->pxb, f->pxb)) {
+                if (c < cmin) cmin = c; if (c > cmax) cmax = c;
+              }
+          }
+          if (nprov < maxn) { prov[nprov] = found; provy[nprov] = y; nprov++; }
+        }
+        got += k;
+        if (k == 0) break;
+      }
+      if (first) o += sprintf(o, "-");
+      o += sprintf(o, "@%u", d.output_scanline);
+    } else if (*p == 'S') {
+      long n = strtol(p + 1, &p, 10);
+      JDIMENSION k = JS(&d, (JDIMENSION)n);
+      o += sprintf(o, " s%u@%u", k, d.output_scanline);
+    } else if (*p == '\n' || *p == '\r') p++;
+    else if (*p) { o += sprintf(o, " ?"); break; }
+    if (o - outbuf > OUTMAX - 8192) break;
+  }
+  o += sprintf(o, " | prov");
+  for (i = 0; i < nprov && o - outbuf < OUTMAX - 4096; i++) o += sprintf(o, " %d", prov[i]);
+  {
+    int bad = 0;
+    for (i = 0; i < nprov; i++) if (provy[i] >= H || prov[i] != cls[provy[i]]) {
+      if (!bad) o += sprintf(o, " | px bad");
+      if (bad < 4) o += sprintf(o, " y=%d:is=%d", provy[i], prov[i]);
+      bad++;
+    }
+    if (!bad) o += sprintf(o, " | px ok %d", nprov); else o += sprintf(o, " n=%d cols=%d-%d", bad, cmax < 0 ? -1 : (int)cmin, (int)cmax);
+    o += sprintf(o, " | dup");
+    for (i = 0; i < H && o - outbuf < OUTMAX - 2048; i++) if (cls[i] != i) o += sprintf(o, " %d:%d", i, cls[i]);
+  }
+  free(buf); free(rows); free(prov); free(provy); free(cls);
+  return o;
+#undef d
+}
+
+/* decode the stream once completely on this object (reuse probes) */
+static void NM(decode_once)(struct jpeg_decompress_struct *d, struct enc *e)
+{
+  jpeg_mem_src(d, e->jpg, e->len);
+  jpeg_read_header(d, TRUE);
+  d->do_fancy_upsampling = TRUE;
+  jpeg_start_decompress(d);
+  { int rb = NM(rowbytes)(d); SAMP *rp = (SAMP *)malloc(rb + 16);
+    while (d->output_scanline < d->output_height) JR(d, &rp, 1);
+    free(rp); }
+  jpeg_finish_decompress(d);
+}
+
+/* one partial-decode history through the libjpeg API */
 static void NM(history)(struct enc *e, struct dec *s, struct full *f, long cx, long cw, char *ops, int reuse_first)
 {
   struct jpeg_decompress_struct d; struct jpeg_error_mgr em;
-  unsigned char *volatile buf = NULL; SAMP **volatile rows = NULL; int *volatile prov = NULL, *volatile provy = NULL;
-  volatile int nprov = 0; int *volatile clsv = NULL; volatile int cmin = 1 << 30, cmax = -1;
-  char *volatile o = outbuf; int i;
+  char *volatile o = outbuf;
   d.err = jpeg_std_error(&em); em.error_exit = my_exit; em.emit_message = my_emit;
   if (setjmp(jb)) {
-    jpeg_destroy_decompress(&d); free(buf); free(rows); free(prov); free(provy); free(clsv);
+    jpeg_destroy_decompress(&d);
     printf("%s err %d\n", outbuf, last_err); return;
   }
   outbuf[0] = 0;
   jpeg_create_decompress(&d);
-  if (reuse_first) {
-    /* F5 probe: first decode the same stream completely with separate (fancy) upsampling on this object */
-    jpeg_mem_src(&d, e->jpg, e->len);
-    jpeg_read_header(&d, TRUE);
-    d.do_fancy_upsampling = TRUE;
-    jpeg_start_decompress(&d);
-    { int rb = NM(rowbytes)(&d); SAMP *rp = (SAMP *)malloc(rb + 16);
-      while (d.output_scanline < d.output_height) JR(&d, &rp, 1);
-      free(rp); }
-    jpeg_finish_decompress(&d);
-  }
+  if (reuse_first) NM(decode_once)(&d, e);   /* F5 probe */
   jpeg_mem_src(&d, e->jpg, e->len);
   jpeg_read_header(&d, TRUE);
   NM(configure)(&d, s);
   NM(start)(&d, s);
   {
-    my_master_ptr m = (my_master_ptr)d.master;
     int H = d.output_height, W = d.output_width;
     int ex0 = 0, ex1 = 0; long x0 = 0, w0 = W;
-    o += sprintf(o, "ok dims %d %d M=%d v=%d h=%d ctx=%d mrg=%d ms=%d", W, H, d.min_DCT_scaled_size, d.max_v_samp_factor,
-                 d.max_h_samp_factor, d.upsample->need_context_rows ? 1 : 0, m->using_merged_upsample ? 1 : 0,
-                 (d.inputctl->has_multiple_scans || d.buffered_image) ? 1 : 0);
-    { /* is interblock smoothing active?  (jdcoefct.c smoothing_ok(): progressive, DC of every component known,
-         some of the first AC coefficients of some component not known to full precision) */
-      int sm = 0, ci, k2;
-      if (d.progressive_mode && d.coef_bits != NULL && d.do_block_smoothing) {
-        sm = 1;
-        { int useful = 0;
-          for (ci = 0; ci < d.num_components; ci++) {
-            if (d.comp_info[ci].quant_table == NULL && d.quant_tbl_ptrs[d.comp_info[ci].quant_tbl_no] == NULL) sm = 0;
-            if (d.coef_bits[ci][0] < 0) sm = 0;
-            for (k2 = 1; k2 <= 9; k2++) if (d.coef_bits[ci][k2] != 0) useful = 1;
-          }
-          if (!useful) sm = 0; }
-      }
-      o += sprintf(o, " sm=%d", sm); }
+    o = NM(header)(&d, o);
     if (W != f->W || H != f->H) o += sprintf(o, " DIMS-DIFFER-FROM-FULL");
     if (cx >= 0) {
       JDIMENSION xo = (JDIMENSION)cx, wo = (JDIMENSION)cw;
       JC(&d, &xo, &wo);
       x0 = xo; w0 = wo;
-      o += sprintf(o, " | crop %u %u ow=%u win", xo, wo, d.output_width);
-      if (cw != (long)W) {
-        o += sprintf(o, " %u %u", d.master->first_iMCU_col, d.master->last_iMCU_col);
-        for (i = 0; i < d.num_components; i++) o += sprintf(o, " %u %u", d.master->first_MCU_col[i], d.master->last_MCU_col[i]);
-      }
+      o = NM(cropinfo)(&d, x0, w0, cw, W, o);
       /* fancy upsampling: the first/last column of the region may differ; a region of <= 2 columns makes
          jpeg_crop_scanline re-select the plain upsampler (both of its columns are first/last columns) */
       if (d.do_fancy_upsampling && cw != (long)W) { ex0 = x0 > 0 || w0 <= 2; ex1 = x0 + w0 < W || w0 <= 2; }
     } else o += sprintf(o, " | crop -");
-    {
-      int rb = NM(rowbytes)(&d);
-      int maxn = H + 8;
-      size_t stride = ((size_t)rb + 16 + 15) & ~(size_t)15;   /* 16-byte aligned rows */
-      int *cls = NULL;
-      buf = (unsigned char *)malloc(stride * maxn);
-      rows = (SAMP **)malloc(sizeof(SAMP *) * maxn);
-      prov = (int *)malloc(sizeof(int) * (maxn + 4)); provy = (int *)malloc(sizeof(int) * (maxn + 4));
-      /* class of a full-decode row = smallest row with the same pixels inside the compared window */
-      cls = (int *)malloc(sizeof(int) * (H + 1));
-      { int y, t; for (y = 0; y < H; y++) { cls[y] = y; for (t = 0; t < y; t++) if (cls[t] == t && NM(roweq)(f, f->pix + (size_t)f->rowb * y + (size_t)x0 * f->pxb, t, (int)x0, (int)w0, ex0, ex1)) { cls[y] = t; break; } } }
-      clsv = cls;
-      o += sprintf(o, " | ops");
-      char *p = ops;
-      while (*p) {
-        while (*p == ' ') p++;
-        if (*p == 'R') {
-          long n = strtol(p + 1, &p, 10); long got = 0; int first = 1;
-          o += sprintf(o, " r");
-          while (got < n && d.output_scanline < d.output_height) {
-            JDIMENSION y0 = d.output_scanline, k; long want = n - got; int j;
-            if (want > maxn) want = maxn;
-            for (j = 0; j < want; j++) rows[j] = (SAMP *)(buf + stride * j);
-            memset(buf, 0xA5, stride * want);
-            k = JR(&d, (SAMP **)rows, (JDIMENSION)want);
-            o += sprintf(o, "%s%u", first ? "" : "+", k); first = 0;
-            for (j = 0; j < (int)k; j++) {
-              int y = (int)y0 + j, found = -1, t;
-              if (y >= H) found = -1;   /* a row past the bottom: nothing to compare with */
-              else if (NM(roweq)(f, (unsigned char *)rows[j], y, (int)x0, (int)w0, ex0, ex1)) found = cls[y];
-              else for (t = 0; t < H; t++) if (cls[t] == t && NM(roweq)(f, (unsigned char *)rows[j], t, (int)x0, (int)w0, ex0, ex1)) { found = t; break; }
-              if (y < H && found != cls[y]) {   /* which region columns differ from the full decode of row y */
-                int a0 = ex0 ? 1 : 0, b0 = (int)w0 - (ex1 ? 1 : 0), c;
-                for (c = a0; c < b0; c++)
-                  if (memcmp((unsigned char *)rows[j] + (size_t)c * f->pxb, f->pix + (size_t)f->rowb * y + (size_t)(x0 + c) * f->pxb, f->pxb)) {
-                    if (c < cmin) cmin = c; if (c > cmax) cmax = c;
-                  }
-              }
-              if (nprov < maxn) { prov[nprov] = found; provy[nprov] = y; nprov++; }
-            }
-            got += k;
-            if (k == 0) break;
-          }
-          if (first) o += sprintf(o, "-");
-          o += sprintf(o, "@%u", d.output_scanline);
-        } else if (*p == 'S') {
-          long n = strtol(p + 1, &p, 10);
-          JDIMENSION k = JS(&d, (JDIMENSION)n);
-          o += sprintf(o, " s%u@%u", k, d.output_scanline);
-        } else if (*p == '\n' || *p == '\r') p++;
-        else if (*p) { o += sprintf(o, " ?"); break; }
-        if (o - outbuf > OUTMAX - 4096) break;
-      }
-      o += sprintf(o, " | prov");
-      for (i = 0; i < nprov && o - outbuf < OUTMAX - 2048; i++) o += sprintf(o, " %d", prov[i]);
-      {
-        int bad = 0;
-        for (i = 0; i < nprov; i++) if (provy[i] >= H || prov[i] != cls[provy[i]]) {
-          if (!bad) o += sprintf(o, " | px bad");
-          if (bad < 4) o += sprintf(o, " y=%d:is=%d", provy[i], prov[i]);
-          bad++;
-        }
-        if (!bad) o += sprintf(o, " | px ok %d", nprov); else o += sprintf(o, " n=%d cols=%d-%d", bad, cmax < 0 ? -1 : (int)cmin, (int)cmax);
-        o += sprintf(o, " | dup");
-        for (i = 0; i < H && o - outbuf < OUTMAX - 1024; i++) if (cls[i] != i) o += sprintf(o, " %d:%d", i, cls[i]);
-      }
-    }
+    o = NM(run_ops)(&d, f, x0, w0, ex0, ex1, ops, o);
     if (d.output_scanline < d.output_height) jpeg_abort_decompress(&d); else NM(finish)(&d, s);
   }
   jpeg_destroy_decompress(&d);
-  free(buf); free(rows); free(prov); free(provy); free(clsv);
+  printf("%s\n", outbuf);
+}
+
+/* buffered-image mode: several output passes, jpeg_crop_scanline once (before the first jpeg_start_output or
+   right after it), Read/Skip ops inside every pass.  pass p: scan number pk[p], ops pops[p]; fp[p] = full decode
+   by a fresh decompressor in buffered-image mode with an output pass on the same scan.  Result: the passes'
+   result segments (same format as an L line) joined by " ## ". */
+static void NM(bhistory)(struct enc *e, struct dec *s, int npass, int *pk, char **pops, struct full *fp, long cx, long cw,
+                         int when, int reuse_first)
+{
+  struct jpeg_decompress_struct d; struct jpeg_error_mgr em;
+  char *volatile o = outbuf; volatile int cropped = 0; int p;
+  volatile long x0 = 0, w0 = 0; volatile int ex0 = 0, ex1 = 0;
+  d.err = jpeg_std_error(&em); em.error_exit = my_exit; em.emit_message = my_emit;
+  if (setjmp(jb)) {
+    jpeg_destroy_decompress(&d);
+    printf("%s err %d\n", outbuf, last_err); return;
+  }
+  outbuf[0] = 0;
+  jpeg_create_decompress(&d);
+  if (reuse_first) NM(decode_once)(&d, e);
+  jpeg_mem_src(&d, e->jpg, e->len);
+  jpeg_read_header(&d, TRUE);
+  NM(configure)(&d, s);
+  d.buffered_image = TRUE;
+  jpeg_start_decompress(&d);
+  for (p = 0; p < npass; p++) {
+    int W, H;
+    while (d.input_scan_number <= pk[p] && !jpeg_input_complete(&d)) {
+      int r = jpeg_consume_input(&d);
+      if (r == JPEG_REACHED_EOI || r == JPEG_SUSPENDED) break;
+    }
+    W = fp[p].W; H = fp[p].H;
+    if (p == 0) { x0 = 0; w0 = W; }
+    if (p > 0) o += sprintf(o, " ## ");
+    if (!cropped && cx >= 0 && when == 0) {     /* in state DSTATE_BUFIMAGE, before jpeg_start_output */
+      JDIMENSION xo = (JDIMENSION)cx, wo = (JDIMENSION)cw;
+      JC(&d, &xo, &wo); x0 = xo; w0 = wo; cropped = 1;
+    }
+    jpeg_start_output(&d, pk[p]);
+    if (!cropped && cx >= 0 && when == 1) {
+      JDIMENSION xo = (JDIMENSION)cx, wo = (JDIMENSION)cw;
+      JC(&d, &xo, &wo); x0 = xo; w0 = wo; cropped = 1;
+    }
+    {
+      int ow = d.output_width;
+      d.output_width = W; o = NM(header)(&d, o); d.output_width = ow;   /* dims as the full decode reports them */
+    }
+    if ((int)d.output_height != H) o += sprintf(o, " DIMS-DIFFER-FROM-FULL");
+    if (cropped) {
+      o = NM(cropinfo)(&d, x0, w0, cw, W, o);
+      if (d.do_fancy_upsampling && cw != (long)W) { ex0 = x0 > 0 || w0 <= 2; ex1 = x0 + w0 < W || w0 <= 2; }
+    } else o += sprintf(o, " | crop -");
+    o = NM(run_ops)(&d, &fp[p], x0, w0, ex0, ex1, pops[p], o);
+    jpeg_finish_output(&d);
+  }
+  jpeg_destroy_decompress(&d);
   printf("%s\n", outbuf);
 }
 
